@@ -244,14 +244,15 @@ Definition vcf_body_with (select : list Z -> mask_arg -> res (list Z)) (inp : vc
   do '(gt, idx) <- gt_template (vi_ploidies inp);
   write_sites (vi_contig inp) idx gt 0 (vi_sites inp) mask.
 
-(* the code as it is at the pinned commit, and with the one-word repair *)
-Definition vcf_body : vcf_input -> res (list bytes) := vcf_body_with selected_positions_as_coded.
+(* the code as it was at the pinned commit 380c75d (position-zero check on the raw
+   site_mask argument, finding F6), and with the one-word repair (/repo f5b3ea9) *)
+Definition vcf_body_pinned : vcf_input -> res (list bytes) := vcf_body_with selected_positions_as_coded.
 Definition vcf_body_fixed : vcf_input -> res (list bytes) := vcf_body_with selected_positions_fixed.
 
 (* what /repo has now (regenerated fact): this is what the correspondence evaluates,
    so that applying the repair to /repo needs no change here *)
 Definition vcf_body_current : vcf_input -> res (list bytes) :=
-  if c16_poszero_uses_raw_site_mask then vcf_body else vcf_body_fixed.
+  if c16_poszero_uses_raw_site_mask then vcf_body_pinned else vcf_body_fixed.
 
 (* ------------------------------------------------------------------ *)
 (* header facts                                                         *)
